@@ -132,6 +132,10 @@ type FaultWriter struct {
 	// accepted in full again (a transient fault in the middle of a chunk).
 	LimitOnce bool
 	limitHit  bool
+	// FullCount: the failing call (FailCall) accepts all its bytes and reports
+	// the error together with n == len(p), as a forwarding or buffering writer
+	// does that took the data and failed to pass it on.
+	FullCount bool
 	Calls     int
 	Err       error
 }
@@ -144,6 +148,10 @@ func (w *FaultWriter) Write(p []byte) (int, error) {
 	call := w.Calls
 	w.Calls++
 	if call == w.FailCall {
+		if w.FullCount {
+			w.Buf = append(w.Buf, p...)
+			return len(p), w.Err
+		}
 		return 0, w.Err
 	}
 	if w.Limit >= 0 && !(w.LimitOnce && w.limitHit) {
